@@ -64,7 +64,16 @@ class Movers(_Sys):
             a[Energy].e += m.random.randint(-3, 3)
             if m.cfg['world'] != 'plain':
                 if m.cfg['world'] == 'grid':
-                    self.call(env.move, a, m.random.randint(-2, 2), m.random.randint(-2, 2))
+                    if m.random.random() < 0.5:
+                        self.call(env.move, a, m.random.randint(-2, 2), m.random.randint(-2, 2))
+                    else:   # hop to a random neighbouring cell (moore / von neumann, radius 1-2)
+                        cells = self.call(env.get_neighbours, a[m.position_type], m.random.randint(1, 2), False, tuple,
+                                          m.random.choice(['moore', 'neumann']))
+                        ids = self.call(env.get_moore_neighbours, a[m.position_type], 1, True)
+                        m.trace.append(f'nb:{a.id}:{len(cells)}:{ids}')
+                        if cells:
+                            c = m.random.choice(cells)
+                            self.call(env.move_to, a, c[0], c[1])
                 else:
                     self.call(env.move, a, m.random.uniform(-2, 2), m.random.uniform(-2, 2), m.random.uniform(-1, 1))
                 m.trace.append(f'pos:{a.id}:{a[m.position_type].xyz()}')
